@@ -88,13 +88,13 @@ var participleYqRules = []*participleYqRule{
 	{"Uri", `@uri`, encodeWithIndent(UriFormat, 0), 0},
 	{"SH", `@sh`, encodeWithIndent(ShFormat, 0), 0},
 
-	{"LoadXML", `load_?xml|xml_?load`, loadOp(NewXMLDecoder(ConfiguredXMLPreferences)), 0},
+	{"LoadXML", `load_?xml|xml_?load`, loadOp(func() Decoder { return NewXMLDecoder(NewDefaultXmlPreferences()) }), 0},
 
-	{"LoadBase64", `load_?base64`, loadOp(NewBase64Decoder()), 0},
+	{"LoadBase64", `load_?base64`, loadOp(NewBase64Decoder), 0},
 
-	{"LoadProperties", `load_?props`, loadOp(NewPropertiesDecoder()), 0},
+	{"LoadProperties", `load_?props`, loadOp(NewPropertiesDecoder), 0},
 	simpleOp("load_?str|str_?load", loadStringOpType),
-	{"LoadYaml", `load`, loadOp(NewYamlDecoder(LoadYamlPreferences)), 0},
+	{"LoadYaml", `load`, loadOp(func() Decoder { return NewYamlDecoder(LoadYamlPreferences) }), 0},
 
 	{"SplitDocument", `splitDoc|split_?doc`, opToken(splitDocumentOpType), 0},
 
@@ -555,8 +555,9 @@ func decodeOp(format *Format) yqAction {
 	return opTokenWithPrefs(decodeOpType, nil, prefs)
 }
 
-func loadOp(decoder Decoder) yqAction {
-	prefs := loadPrefs{decoder}
+// a decoder per load, not one per process: decoders carry per-stream state
+func loadOp(newDecoder func() Decoder) yqAction {
+	prefs := loadPrefs{newDecoder}
 	return opTokenWithPrefs(loadOpType, nil, prefs)
 }
 
